@@ -17,6 +17,7 @@ class Fn:
         self.locals = {}      # id -> type
         self.blocks = {}      # id -> Block
         self.src = ""
+        self.error = None
 
 
 class Block:
@@ -329,7 +330,13 @@ def parse_mir(text):
             j = i + 1
             while j < n and lines[j] != "}":
                 j += 1
-            f = _parse_fn(lines[i:j + 1])
+            try:
+                f = _parse_fn(lines[i:j + 1])
+            except MirError as e:
+                # functions outside the encodable vocabulary are only an error if they are executed
+                m = re.match(r"fn (.*?)\(", line)
+                f = Fn(m.group(1) if m else line, line)
+                f.error = str(e)
             fns[f.name] = f
             i = j + 1
         else:
